@@ -13,6 +13,16 @@ class CFrame:
         return ("A" if self.valid else "a") + str(self.pos)
 
 
+class CFalsyFrame(CFrame):
+    __slots__ = ()
+
+    def __bool__(self):
+        return False
+
+    def __len__(self):
+        return 0
+
+
 class CSource:
     def __init__(self, frames):
         self.frames = frames
@@ -127,8 +137,8 @@ def greedy_reference(v, mn, mx, mcs, drop, strict):
     return toks
 
 
-def run_tokenizer(auditok, valid, mn, mx, mcs, init_min=0, ims=0, mode=0, delivery="list"):
-    frames = [CFrame(i, bool(b)) for i, b in enumerate(valid)]
+def run_tokenizer(auditok, valid, mn, mx, mcs, init_min=0, ims=0, mode=0, delivery="list", falsy=False):
+    frames = [(CFalsyFrame if falsy else CFrame)(i, bool(b)) for i, b in enumerate(valid)]
     tk = auditok.StreamTokenizer(lambda f: f.valid, mn, mx, mcs, init_min=init_min, init_max_silence=ims, mode=mode)
     src = CSource(frames)
     if delivery == "list":
